@@ -705,3 +705,138 @@ Proof.
       intros E. rewrite E in H. exact H.
     + reflexivity.
 Qed.
+
+(* ------------------------------------------------------------------ op lists *)
+(* The documented argument domain of the read-side API, as an executable predicate evaluated
+   on the state the op is applied to: pointer indices are uint16; data offsets are
+   DataOffset < 2^19 and widths 1/2/4/8; bit offsets < 2^22; list indices are in
+   [0, Len()) of the list the handle designates AT THAT POINT (an index outside is the
+   documented programmer-error panic, see list_struct_panic_iff / primitiveElem_panic_iff /
+   bitlist_at_panic_iff).  Handles themselves are unrestricted (an unknown handle is the
+   zero Ptr). *)
+Definition in_width (n : Z) : bool := (n =? 1) || (n =? 2) || (n =? 4) || (n =? 8).
+Definition in_len (st : rstate) (h i : Z) : bool :=
+  (0 <=? i) && (i <? list_len (as_list (handle st h))).
+
+Definition op_dom (st : rstate) (o : op) : bool :=
+  match o with
+  | OSPtr _ i | OHasPtr _ i => (0 <=? i) && (i <? 65536)
+  | OUint _ off n => (0 <=? off) && (off <? 524288) && in_width n
+  | OBit _ n => (0 <=? n) && (n <? 4194304)
+  | OLStruct h i | OPLAt h i | OBitAt h i => in_len st h i
+  | OUintAt h i n => in_len st h i && in_width n
+  | ORoot | OText _ | OData _ | OInfo _ | ORLimit | OWalk _ _ _ _ => true
+  end.
+
+Fixpoint run_dom (c : config) (fx : fixes) (m : segs) (st : rstate) (ops : list op) : bool :=
+  match ops with
+  | [] => true
+  | o :: r => op_dom st o && run_dom c fx m (fst (step c fx m st o)) r
+  end.
+
+Definition oval_ok (v : oval) : Prop :=
+  match v with
+  | VPtr r => r <> Panic
+  | VNum r => r <> Panic
+  | VBool r => r <> Panic
+  | VBytes r => r <> Panic
+  | VTree t _ => tree_ok t = true
+  end.
+
+Definition state_wf (m : segs) (st : rstate) : Prop := Forall (wf_ptr m) (rs_handles st).
+
+Lemma handle_wf m st h : state_wf m st -> wf_ptr m (handle st h).
+Proof.
+  unfold state_wf, handle. intros H.
+  destruct (Nat.lt_ge_cases (Z.to_nat h) (length (rs_handles st))) as [L|G].
+  - rewrite Forall_forall in H. apply H. apply nth_In. assumption.
+  - rewrite nth_overflow by assumption. apply wf_null.
+Qed.
+
+Lemma push_wf m st r rl : state_wf m st -> res_sat r (wf_ptr m) -> state_wf m (push st r rl).
+Proof.
+  unfold state_wf, push. cbn [rs_handles]. intros H Hr. apply Forall_app. split; [assumption|].
+  constructor; [|constructor]. destruct r; cbn [res_sat] in Hr; auto using wf_null.
+Qed.
+
+Lemma res_sat_nopanic {A} (r : res A) P : res_sat r P -> r <> Panic.
+Proof. destruct r; cbn; [discriminate|discriminate|intros []]. Qed.
+
+Lemma in_width_range n : in_width n = true -> 0 <= n <= 8.
+Proof. unfold in_width. lia. Qed.
+
+Lemma step_safe c fx m st o : msg_ok m -> cfg_strict c = true -> cfg_root c = true -> fx_bit fx = true ->
+  state_wf m st -> op_dom st o = true ->
+  state_wf m (fst (step c fx m st o)) /\ oval_ok (snd (step c fx m st o)).
+Proof.
+  intros Hm Hst Hrt Hfb Hwf Hd.
+  pose proof (fun h => handle_wf m st h Hwf) as Hh.
+  pose proof (fun h => wf_struct_as_struct m _ (Hh h)) as Hhs.
+  pose proof (fun h => wf_list_as_list m _ (Hh h)) as Hhl.
+  destruct o; cbn [step op_dom] in *; unfold in_len in *.
+  - (* root *)
+    pose proof (root_safe c m (rs_rl st) Hm Hrt) as H.
+    destruct (root c m (rs_rl st)) as [r rl]. cbn [fst snd] in *.
+    assert (res_sat r (wf_ptr m)) as H' by (eapply res_sat_weaken; [exact H|auto]).
+    split; [apply push_wf; assumption|]. exact (res_sat_nopanic _ _ H').
+  - (* Struct.Ptr *)
+    pose proof (struct_ptr_safe c m (rs_rl st) _ i Hm (Hhs h) ltac:(lia)) as H.
+    destruct (struct_ptr c m (rs_rl st) (as_struct (handle st h)) i) as [r rl]. cbn [fst snd] in *.
+    assert (res_sat r (wf_ptr m)) as H' by (eapply res_sat_weaken; [exact H|auto]).
+    split; [apply push_wf; assumption|]. exact (res_sat_nopanic _ _ H').
+  - split; [assumption|]. cbn [snd oval_ok]. apply struct_hasptr_safe; auto. lia.
+  - split; [assumption|]. cbn [snd oval_ok].
+    apply andb_prop in Hd. destruct Hd as [Hd Hn]. apply in_width_range in Hn.
+    apply struct_uint_safe; auto; lia.
+  - split; [assumption|]. cbn [snd oval_ok]. apply struct_bit_safe; auto. lia.
+  - (* List.Struct *)
+    pose proof (list_struct_safe (fx_depth fx) m _ i Hm (Hhl h) ltac:(lia)) as H.
+    cbn [fst snd].
+    assert (res_sat (list_struct (fx_depth fx) (as_list (handle st h)) i) (wf_ptr m)) as H'
+      by (eapply res_sat_weaken; [exact H|intros a [Ha _]; exact Ha]).
+    split; [apply push_wf; assumption|]. exact (res_sat_nopanic _ _ H').
+  - (* PointerList.At *)
+    pose proof (ptrlist_at_safe c (fx_upgrade fx) m (rs_rl st) _ i Hm (Hhl h) ltac:(lia)) as H.
+    destruct (ptrlist_at c (fx_upgrade fx) m (rs_rl st) (as_list (handle st h)) i) as [r rl]. cbn [fst snd] in *.
+    assert (res_sat r (wf_ptr m)) as H' by (eapply res_sat_weaken; [exact H|auto]).
+    split; [apply push_wf; assumption|]. exact (res_sat_nopanic _ _ H').
+  - split; [assumption|]. cbn [snd oval_ok].
+    apply andb_prop in Hd. destruct Hd as [Hd Hn]. apply in_width_range in Hn.
+    eapply res_sat_nopanic. apply list_uint_at_safe; auto; lia.
+  - split; [assumption|]. cbn [snd oval_ok]. rewrite Hfb. apply bitlist_at_safe; auto. lia.
+  - split; [assumption|]. cbn [snd oval_ok]. eapply res_sat_nopanic. apply ptr_text_safe; auto.
+  - split; [assumption|]. cbn [snd oval_ok]. eapply res_sat_nopanic. apply ptr_data_safe; auto.
+  - split; [assumption|]. cbn [snd oval_ok]. discriminate.
+  - split; [assumption|]. cbn [snd oval_ok]. discriminate.
+  - (* walk *)
+    pose proof (walk_safe c fx m dcap pcap Hm Hst Hfb (Z.to_nat fuel) (rs_rl st) (Ok (handle st h)) (Hh h)) as H.
+    destruct (walk c fx m dcap pcap (Z.to_nat fuel) (rs_rl st) (Ok (handle st h))) as [t rl]. cbn [fst snd] in *.
+    split; [exact Hwf|exact H].
+Qed.
+
+(* All read-side API call sequences: no observation is a panic and every handle ever
+   created designates a region inside the message. *)
+Lemma run_safe_gen c fx m : msg_ok m -> cfg_strict c = true -> cfg_root c = true -> fx_bit fx = true ->
+  forall ops st, state_wf m st -> run_dom c fx m st ops = true ->
+  state_wf m (fst (run c fx m st ops)) /\ Forall oval_ok (snd (run c fx m st ops)).
+Proof.
+  intros Hm Hst Hrt Hfb. induction ops as [|o ops IH]; intros st Hwf Hd; cbn [run run_dom] in *.
+  - split; [assumption|constructor].
+  - apply andb_prop in Hd. destruct Hd as [Hd1 Hd2].
+    destruct (step_safe c fx m st o Hm Hst Hrt Hfb Hwf Hd1) as [Hs Hv].
+    destruct (step c fx m st o) as [st1 v]. cbn [fst snd] in *.
+    destruct (IH st1 Hs Hd2) as [Hs2 Hvs].
+    destruct (run c fx m st1 ops) as [st2 vs]. cbn [fst snd] in *.
+    split; [assumption|constructor; assumption].
+Qed.
+
+Definition init_state (c : config) : rstate := mkRS [] (init_rlimit c).
+
+Theorem run_safe c fx m ops : msg_ok m -> cfg_strict c = true -> cfg_root c = true -> fx_bit fx = true ->
+  run_dom c fx m (init_state c) ops = true ->
+  Forall oval_ok (run_ops c fx m ops) /\ state_wf m (fst (run c fx m (init_state c) ops)).
+Proof.
+  intros Hm Hst Hrt Hfb Hd.
+  destruct (run_safe_gen c fx m Hm Hst Hrt Hfb ops (init_state c) ltac:(constructor) Hd) as [H1 H2].
+  split; assumption.
+Qed.
